@@ -4,6 +4,7 @@ package main
 // symbolic state.
 
 import (
+	"sort"
 	"fmt"
 	"go/ast"
 	"go/constant"
@@ -902,7 +903,12 @@ func (fx *FuncExec) evalSpecCall(env *SpecEnv, x *ast.CallExpr) Val {
 		nm, _ := strconv.Unquote(lit.Value)
 		v, ok := env.state().rets[nm]
 		if !ok {
-			fx.specFail(env, "ret(%q): that call has not been made on every path to this point", nm)
+			var have []string
+			for k := range env.state().rets {
+				have = append(have, k)
+			}
+			sort.Strings(have)
+			fx.specFail(env, "ret(%q): that call has not been made on every path to this point (known: %s)", nm, strings.Join(have, ", "))
 		}
 		if len(x.Args) > 1 {
 			idx := fx.evalSpec(env, x.Args[1])
@@ -916,6 +922,18 @@ func (fx *FuncExec) evalSpecCall(env *SpecEnv, x *ast.CallExpr) Val {
 			return v.Tup[0]
 		}
 		return v
+	case "calledsince":
+		// calledsince("callee"): called since the innermost loop head was last passed (in step clauses:
+		// "during this iteration")
+		lit, ok := x.Args[0].(*ast.BasicLit)
+		if !ok {
+			fx.specFail(env, "calledsince(\"callee name\")")
+		}
+		nm, _ := strconv.Unquote(lit.Value)
+		if h, ok := env.state().calledIter[nm]; ok {
+			return bv(h)
+		}
+		return bv("false")
 	case "called":
 		// called("callee"): a call to that callee (at-call naming) has been executed on this path
 		lit, ok := x.Args[0].(*ast.BasicLit)
